@@ -58,6 +58,9 @@ def plan(tier):
     return [("ns", 200000), ("clash", 100000), ("convert", 600), ("convert_off", 300)]
 
 
+ATTRS = [["keep", "true"], ["mark_debug", "true"], ["async_reg", "true"], ["dont_touch", "true"], ["ram_style", "block"], ["max_fanout", 16], "no_retiming"]
+
+
 def gen_signals(rng, n):
     names = ["x", "y", "data", "valid", "x_1", "x1", "x_", "q", rng.choice(KEYWORDS), rng.choice(["repeat", "union", "uwire", "wire", "reg"])]
     mods = ["m", "sub", "fifo", "core", "x"]
@@ -115,16 +118,25 @@ def generate(family, rng, tier):
             rng.shuffle(leafs)
             for k in range(rng.randint(2, 5)):
                 depth = rng.randint(1, 3)
-                bt = [[rng.choice(["m", "sub", "core"]), rng.choice([0, 1])] for _ in range(depth - 1)] + [[leafs[k], 0]]
+                bt = [[rng.choice(["m", "sub", "core"]), rng.choice([0, 1, 2])] for _ in range(depth - 1)] + [[leafs[k], 0]]
                 w = rng.choice([4, 8])
                 for _ in range(rng.choice([1, 1, 2, 3, 4]) if k else 1):
                     sigs.append({"bt": bt, "override": None, "related": None, "width": w, "io": False, "sync": rng.random() < 0.4})
+            if rng.random() < 0.6:
+                # sibling instances: the same path and leaf name under two or three instances of one class, told apart by the rank of
+                # their tracer indices (sub0_s, sub1_s, sub2_s)
+                mod, w = rng.choice(["m", "sub", "core", "stage"]), rng.choice([1, 4, 8])
+                pre = [["top", 0]] if rng.random() < 0.3 else []
+                for j in rng.sample([0, 1, 2], rng.choice([2, 3, 3])):
+                    sigs.append({"bt": pre + [[mod, j], ["s", 0]], "override": None, "related": None, "width": w + j, "io": False, "sync": rng.random() < 0.4})
             rest = sigs[1:]
             rng.shuffle(rest)
             sigs = sigs[:1] + rest
             sigs[0]["io"] = True        # ports get name overrides (convert() does that): only the uniquely named input is one
             designs.append({"signals": sigs, "duid_offset": 0, "slices": rng.randint(0, 6)})
-        return {"family": family, "designs": designs, "offsets": [0, 3, 250]}
+        # "noffs": the tracer indices (the numbers in the back-traces) are shifted as well, as if earlier builds in the same process had
+        # used the same class / attribute names: sibling numbering goes by rank, not by the absolute indices
+        return {"family": family, "designs": designs, "offsets": [0, 3, 250], "noffs": [0, 7, 6]}
     if family == "convert":
         designs = []
         for _ in range(8):
@@ -133,6 +145,10 @@ def generate(family, rng, tier):
             for s in sigs:
                 s["io"] = rng.random() < 0.3
                 s["sync"] = rng.random() < 0.4
+                if rng.random() < 0.25:
+                    # synthesis attributes: (name, value) pairs are printed as they are, in an order that must not depend on the
+                    # interpreter's string hashing
+                    s["attrs"] = rng.sample(ATTRS, rng.randint(1, 4))
             mems = []
             if rng.random() < 0.5:
                 # memories with synchronous read ports: their port registers are named <memory>_adr<n> / <memory>_dat<n> by the
@@ -153,7 +169,8 @@ def generate(family, rng, tier):
                 # instances: named after their module type unless given a name; the identifier must be legal, not reserved
                 # and different from every signal / memory identifier (and from other instances of the same type)
                 for ii in range(rng.randint(1, 3)):
-                    insts.append({"of": rng.choice(["CELL", "CELL", "buf", "and", "FD"]), "name": rng.choice([None, None, "u0", "table", "x", "data", "q_1"])})
+                    insts.append({"of": rng.choice(["CELL", "CELL", "buf", "and", "FD"]), "name": rng.choice([None, None, "u0", "table", "x", "data", "q_1"]),
+                                  "attrs": rng.sample(ATTRS, rng.randint(2, 4)) if rng.random() < 0.4 else []})
             designs.append({"signals": sigs, "duid_offset": 0, "mems": mems, "insts": insts})
             if not any(s["io"] for s in sigs):
                 sigs[0]["io"] = True
@@ -245,7 +262,15 @@ for d in batch["designs"]:
     boot.reset_globals()
     for _ in range(batch["offset"]):
         DUID()
+    noff = batch.get("noff", 0)
+    if noff:
+        # as if earlier builds in the same process had consumed that many tracer indices of every name
+        for s_ in d["signals"]:
+            s_["bt"] = [[n_, k_ + noff] for n_, k_ in s_["bt"]]
     objs = c02.build_signals(d["signals"])
+    for s_, sig_ in zip(d["signals"], objs):
+        for a_ in s_.get("attrs", []):
+            sig_.attr.add(tuple(a_) if isinstance(a_, list) else a_)
     m = Module()
     m.clock_domains.cd_sys = ClockDomain("sys")
     ios = set()
@@ -277,6 +302,8 @@ for d in batch["designs"]:
         o = Signal()
         o.backtrace = [("io%%d" %% ii, 0)]
         inst = Instance(ins["of"], i_a=objs[0], o_b=o, **({"name": ins["name"]} if ins["name"] else {}))
+        for a_ in ins.get("attrs", []):
+            inst.attr.add(tuple(a_) if isinstance(a_, list) else a_)
         m.specials += inst
         specials.append(inst)
         ios.add(o)
@@ -305,12 +332,12 @@ def run_convert(scn):
     viols = []
     V = mkV(viols)
     outs = []
-    for hs, off in zip(("0", "1", "12345"), scn["offsets"]):
+    for k_, (hs, off) in enumerate(zip(("0", "1", "12345"), scn["offsets"])):
         env = dict(os.environ)
         env["PYTHONHASHSEED"] = hs
         env["PYTHONPATH"] = boot.VERIF
         env["VERIF_REPO"] = boot.REPO
-        p = subprocess.run([sys.executable, "-c", WORKER % {"verif": boot.VERIF}], input=json.dumps({"designs": scn["designs"], "offset": off}),
+        p = subprocess.run([sys.executable, "-c", WORKER % {"verif": boot.VERIF}], input=json.dumps({"designs": scn["designs"], "offset": off, "noff": (scn.get("noffs") or [0, 0, 0])[k_]}),
                            capture_output=True, text=True, env=env, timeout=300)
         if p.returncode != 0:
             raise RuntimeError("convert worker failed: " + p.stderr[-1500:])
